@@ -915,8 +915,11 @@ def ops_for(spec, leafname, tier="quick"):
             ops.append(["itemset", key, 0, "c", valid[0]])
             if _jsonlike(v_ok):
                 unk = D(("c", v_ok), ("r", "x"), ("nosuchfield", 1)) if has_r else D(("c", v_ok), ("nosuchfield", 1))
-                for m in (["setitem", 0, unk], ["append", unk], ["insert", 0, unk]):
+                for m in (["setitem", 0, unk], ["append", unk], ["insert", 0, unk], ["insert", 1, unk]):     # insert behind an item the half-loaded candidate may equal
                     ops.append(["mut", key] + m)
+                ops.append(["mut", key, "append", D()])                   # an item made of defaults only
+                if v_bad is not None and _jsonlike(v_bad):
+                    ops.append(["mut", key, "insert", 1, D(("c", v_bad), ("r", "x")) if has_r else D(("c", v_bad))])
             ops.append(["mut", key, "append", 5])
             ops.append(["mut", key, "pop"])
             ops.append(["reset", key])
